@@ -71,6 +71,23 @@ impl TryFromSpecImpl<Vec<u8>> for OptionValueU32 { open spec fn obeys_try_from_s
 
 H = 'impl Header'
 P = 'impl Packet'
+ADD_OPTION_STATE = '''        proof {
+            // state-based (does not mention any local of the body): whichever branch ran, the list under the option number
+            // is the old list, or the empty list if there was none, with the value appended
+            reveal(opts_view);
+            let n = u16_of_option(tp);
+            lemma_view_get(old(self).options, n);
+            assert(self.options@.contains_key(n));
+            if old(self).options@.contains_key(n) {
+                assert(self.options@[n]@ =~= old(self).options@[n]@.push(value));
+                assert(self.options@ =~= old(self).options@.insert(n, self.options@[n]));
+                assert(vals_view(self.options@[n]) =~= vals_view(old(self).options@[n]).push(value@));
+            } else {
+                assert(self.options@[n]@ =~= Seq::<Vec<u8>>::empty().push(value));
+                assert(vals_view(self.options@[n]) =~= Seq::<Seq<u8>>::empty().push(value@));
+            }
+            assert(opts_view(self.options) =~= push_opt(opts_view(old(self).options), n, value@));
+        }'''
 
 
 def build(repo):
@@ -148,28 +165,15 @@ def populate(u, extra_items=None, extra_packet_fns=(), extra_spec=''):
     # ---- raw option accessors: whole-view postconditions ---------------------------------------
     u.contract((P, 'add_option'), '''        ensures opts_view(final(self).options) == push_opt(opts_view(old(self).options), u16_of_option(tp), value@),
             same_but_options(*final(self), *old(self))''')
-    u.after((P, 'add_option'), r'let num = tp\.into\(\);', '        proof { lemma_view_get(self.options, num); }')
     u.contract((P, 'set_option'), '''        ensures opts_view(final(self).options) == opts_view(old(self).options).insert(u16_of_option(tp), vals_view(value)),
             same_but_options(*final(self), *old(self))''')
     u.body_end((P, 'set_option'), '''        proof { reveal(opts_view); assert(opts_view(self.options) =~= opts_view(old(self).options).insert(u16_of_option(tp), vals_view(value))); }''')
-    u.before((P, 'add_option'), r'list\.push_back\(value\);\s*return;', '''            let ghost l0 = list@;''')
-    u.before((P, 'add_option'), r'return;', '''            proof {
-                reveal(opts_view);
-                let n = u16_of_option(tp);
-                assert(old(self).options@.contains_key(n));
-                assert(l0 == old(self).options@[n]@);
-                assert(self.options@.contains_key(n));
-                assert(self.options@[n]@ == l0.push(value));
-                assert(self.options@ == old(self).options@.insert(n, self.options@[n]));
-                assert(vals_view(self.options@[n]) =~= vals_view(old(self).options@[n]).push(value@));
-                assert(opts_view(self.options) =~= push_opt(opts_view(old(self).options), u16_of_option(tp), value@));
-            }''')
-    u.body_end((P, 'add_option'), '''        proof {
-            reveal(opts_view);
-            assert(list@ =~= Seq::<Vec<u8>>::empty().push(value));
-            assert(vals_view(list) =~= Seq::<Seq<u8>>::empty().push(value@));
-            assert(opts_view(self.options) =~= push_opt(opts_view(old(self).options), u16_of_option(tp), value@));
-        }''')
+    # add_option: the same state-based proof at every exit (each `return;` and the end of the body)
+    _s, _p, _bo, _bc = u._fn_span((P, 'add_option'))
+    _nret = len(re.findall(r'(?<![A-Za-z0-9_])return\s*;', _s.code[_bo:_bc]))
+    for _k in range(_nret - 1, -1, -1):
+        u.before((P, 'add_option'), r'(?<![A-Za-z0-9_])return\s*;', ADD_OPTION_STATE, nth=_k, count=_nret)
+    u.body_end((P, 'add_option'), ADD_OPTION_STATE)
     u.body_end((P, 'clear_option'), '''        proof {
             reveal(opts_view);
             let n = u16_of_option(tp);
@@ -192,7 +196,7 @@ def populate(u, extra_items=None, extra_packet_fns=(), extra_spec=''):
             r is Some ==> r->0@ == opts_view(self.options)[u16_of_option(tp)][0]''')
     u.body_start((P, 'get_first_option'), '        proof { lemma_view_get(self.options, u16_of_option(tp)); }')
     u.replace_in((P, 'get_first_option'), 'R18:closure-contract', r'\|options\| options\.front\(\)',
-                 '|options: &VecDeque<Vec<u8>>| -> (o: Option<&Vec<u8>>) ensures options@.len() == 0 ==> o is None, options@.len() > 0 ==> o is Some && *o->0 == options@[0] { options.front() }')
+                 '|options: &VecDeque<Vec<u8>>| -> (o: Option<&Vec<u8>>) ensures options@.len() == 0 ==> o is None, options@.len() > 0 ==> o is Some && *o->0 == options@[0] { options.front() }', (0, 1))
     u.contract((P, 'clear_option'), '''        ensures opts_view(final(self).options) == (if opts_view(old(self).options).contains_key(u16_of_option(tp))
                 { opts_view(old(self).options).insert(u16_of_option(tp), Seq::<Seq<u8>>::empty()) } else { opts_view(old(self).options) }),
             same_but_options(*final(self), *old(self))''')
